@@ -32,10 +32,11 @@ import (
 type Case struct {
 	Exchange string `json:"exchange"` // AS | TGS
 	EType    int32  `json:"etype"`
-	Cred     string `json:"cred"`      // password | keytab
-	Salted   bool   `json:"salted"`    // client key uses a non-default salt which the KDC advertises
-	Addrs    bool   `json:"addresses"` // the request carries addresses
-	Perturb  string `json:"perturb"`   // name from the catalogue; "krb-error" uses Code
+	Cred     string `json:"cred"`              // password | keytab
+	Salted   bool   `json:"salted"`            // client key uses a non-default salt which the KDC advertises
+	Addrs    bool   `json:"addresses"`         // the request carries addresses
+	Perturb  string `json:"perturb"`           // name from the catalogue; "krb-error" uses Code
+	Preauth  bool   `json:"preauth,omitempty"` // end-to-end: the KDC requires pre-authentication, so the perturbed reply (or the KRB-ERROR) answers the client's second, pre-authenticated AS-REQ
 	Code     int    `json:"code,omitempty"`
 	E2E      bool   `json:"end_to_end"` // through Client.Login / GetServiceTicket over loopback sockets
 	Seed     uint64 `json:"seed"`
@@ -114,6 +115,19 @@ var catalogue = []perturb{
 	{"caddr-added", "free", "reject", func(c Case, x *kdc.ReplyCtx, p int64) {
 		l, _ := x.Enc["caddr"].([]any)
 		x.Enc["caddr"] = append(append([]any{}, l...), der.M{"addr-type": int64(2), "address": []byte{192, 0, 2, 77}})
+	}},
+	// the same with an address of every other registered kind: none of them is exempt from the comparison
+	{"caddr-added-netbios", "free", "reject", func(c Case, x *kdc.ReplyCtx, p int64) {
+		l, _ := x.Enc["caddr"].([]any)
+		x.Enc["caddr"] = append(append([]any{}, l...), der.M{"addr-type": int64(20), "address": []byte("WORKSTATION12   ")})
+	}},
+	{"caddr-added-ipv6", "free", "reject", func(c Case, x *kdc.ReplyCtx, p int64) {
+		l, _ := x.Enc["caddr"].([]any)
+		x.Enc["caddr"] = append(append([]any{}, l...), der.M{"addr-type": int64(24), "address": []byte{0x20, 1, 0xd, 0xb8, 0, 0, 0, 0, 0, 0, 0, 0, 0, 0, 0, 0x4d}})
+	}},
+	{"caddr-added-directional", "free", "reject", func(c Case, x *kdc.ReplyCtx, p int64) {
+		l, _ := x.Enc["caddr"].([]any)
+		x.Enc["caddr"] = append(append([]any{}, l...), der.M{"addr-type": int64(3), "address": []byte{0, 0, 0, 1}})
 	}},
 	{"caddr-removed", "reject", "accept", func(c Case, x *kdc.ReplyCtx, p int64) { delete(x.Enc, "caddr") }},
 	{"caddr-replaced", "reject", "reject", func(c Case, x *kdc.ReplyCtx, p int64) {
@@ -263,7 +277,7 @@ func Effect(c Case) string {
 		if !c.Addrs {
 			return "accept" // nothing to remove
 		}
-	case "caddr-added":
+	case "caddr-added", "caddr-added-netbios", "caddr-added-ipv6", "caddr-added-directional":
 		if c.Exchange == "TGS" && !c.Addrs {
 			return "reject"
 		}
@@ -292,7 +306,7 @@ type world struct {
 
 func build(c Case, addrs []string) (*world, error) {
 	w := kdc.NewWorld(c.Seed)
-	r := w.AddRealm("EXAMPLE.COM", kdc.Policy{ETypes: []int32{c.EType}, TicketEType: c.EType})
+	r := w.AddRealm("EXAMPLE.COM", kdc.Policy{ETypes: []int32{c.EType}, TicketEType: c.EType, PreauthRequired: c.Preauth})
 	var salt *string
 	if c.Salted {
 		s := "Custom-Salt-" + fmt.Sprint(c.Seed%97)
@@ -714,6 +728,11 @@ func TestProp(t *testing.T) {
 			if r.Thorough() || ci%6 == int(r.Seed())%6 {
 				jobs = append(jobs, Case{Exchange: ex, EType: et, Cred: "keytab", Perturb: "krb-error", Code: code, Seed: r.Seed()*37 + uint64(code), E2E: true})
 			}
+			if ex == "AS" && code != 24 && code != 25 && (r.Thorough() || ci%3 == int(r.Seed())%3) {
+				// the KDC first asks for pre-authentication; the error answers the second, pre-authenticated request and it is
+				// that error the caller has to see
+				jobs = append(jobs, Case{Exchange: ex, EType: et, Cred: []string{"keytab", "password"}[ci%2], Perturb: "krb-error", Code: code, Seed: r.Seed()*43 + uint64(code), E2E: true, Preauth: true, Salted: ci%4 == 1})
+			}
 			if r.Thorough() || ci%6 == (int(r.Seed())+3)%6 {
 				// the KDC's error arrives over TCP after UDP said RESPONSE_TOO_BIG: it is the TCP answer that counts
 				jobs = append(jobs, Case{Exchange: ex, EType: et, Cred: "keytab", Perturb: "krb-error", Code: code, Seed: r.Seed()*41 + uint64(code), E2E: true, UDPBig: true})
@@ -725,7 +744,7 @@ func TestProp(t *testing.T) {
 		for ei, ex := range []string{"AS", "TGS"} {
 			if r.Thorough() || (pi+ei+int(r.Seed()))%3 == 0 {
 				jobs = append(jobs, Case{Exchange: ex, EType: ref.ETypes[(pi+ei)%6], Cred: []string{"password", "keytab"}[pi%2], Perturb: p, Seed: r.Seed()*53 + uint64(pi), E2E: true, Addrs: pi%3 == 0,
-					Client: []string{"alice/admin", ""}[(pi/2)%2], Opts: optsList[(pi+ei)%len(optsList)], UDPBig: (pi+ei)%4 == 1})
+					Client: []string{"alice/admin", ""}[(pi/2)%2], Opts: optsList[(pi+ei)%len(optsList)], UDPBig: (pi+ei)%4 == 1, Preauth: (pi+ei)%3 == 2})
 			}
 		}
 	}
